@@ -103,6 +103,7 @@ type nodeState struct {
 	snapLabels  map[uint64]*ev.Rec // snapshot index -> snapmeta record
 	termBefore  uint64
 	snapTouched bool // restore / install / compaction happened in this incarnation
+	xferPermit  bool // told to time out now, candidate ever since
 	leaderKnown uint64
 }
 
@@ -142,7 +143,8 @@ type Analyzer struct {
 	connID      map[int64]*connInfo
 	servingDirs map[string]nodeKey
 
-	wireIDs       map[uint64]bool // node ids used by wire-level harness peers
+	wireIDs       map[uint64]bool    // node ids used by wire-level harness peers
+	elXfer        map[[3]uint64]bool // (cid, candidate, term) -> the election had transfer permission
 	cfgPayload    map[[3]uint64]*ev.Cfg
 	ticks         int64
 	faultsStopped bool
@@ -197,6 +199,7 @@ func New() *Analyzer {
 		ops: map[int64]*clientOp{}, xfers: map[int64]*xferOp{}, connID: map[int64]*connInfo{},
 		servingDirs: map[string]nodeKey{},
 		wireIDs:     map[uint64]bool{},
+		elXfer:      map[[3]uint64]bool{},
 	}
 }
 
